@@ -27,6 +27,10 @@ type checkSpec struct {
 	// ExtraOverlay adds files to /repo packages at build time (key: path relative to /repo, value: path
 	// relative to /verif/dsim): the way a harness reaches unexported or internal code without a commit.
 	ExtraOverlay map[string]string
+	// Knobs rewrites tuning constants of /repo in the build overlay (never in /repo): path relative to /repo ->
+	// {old text, new text}.  Only for sizes/limits whose production value makes a code path unreachable within a
+	// simulated run (a 10 MiB queue segment never fills with kilobyte batches); never for behaviour.
+	Knobs map[string][2]string
 }
 
 var storagePkgs = []string{"tsdb", "tsdb/engine/tsm1", "tsdb/index/tsi1", "pkg/file", "pkg/limiter"}
